@@ -268,7 +268,7 @@ func runC04(c *report.Ctx) {
 
 	// ---- restore scan and record codec ----------------------------------------------------------------------
 	ruleBranchKeyAgreement(c)
-	ruleByteOrder(c, []string{pkgKeystore, pkgHD, pkgSnacl}, 4)
+	ruleByteOrder(c, []string{pkgKeystore, pkgHD, pkgSnacl}, 3)
 	ruleLayout(c, []string{"pubkey-record-key"}, 2)
 	ruleChildNumberRoles(c)
 	ruleWipedCacheDropped(c)
